@@ -109,4 +109,48 @@ def authStep (verify : Verify) (n : Node) : AuthStep → Node
   | .finish => authFinish n
   | .poll us => authPoll n us
 
+/-! ### the HTTP front (`services/httpd/handler.go`: `authenticate`, `serveQuery`, `serveWrite`) -/
+
+/-- how a request carries its credentials: none at all; user name and password (basic
+authentication or the `u`/`p` parameters); a signed token naming the user -/
+inductive Carrier | none | password | bearer
+  deriving DecidableEq, Repr
+
+/-- the `authenticate` middleware with authentication enabled: outer `none` = the request is
+turned away (401); `some none` = let through without a user, which happens only while no
+administrator exists; `some (some u)` = runs as `u`. A password is checked through the
+credential cache (`Client.Authenticate`), a token's user is only looked up. -/
+def httpUser (verify : Verify) (n : Node) (c : Carrier) (user pw : String) : Node × Option (Option User) :=
+  if !n.users.any (·.admin) then (n, some Option.none)
+  else match c with
+    | .none => (n, Option.none)
+    | .password =>
+      if user = "" then (n, Option.none)
+      else
+        let (n1, a) := authBegin verify n user pw
+        let n2 := if a = .verified then authFinish n1 else n1
+        if a = .rejected then (n2, Option.none) else (n2, some (lookupUser n2 user))
+    | .bearer =>
+      if user = "" then (n, Option.none)
+      else match lookupUser n user with
+        | Option.none => (n, Option.none)
+        | some u => (n, some (some u))
+
+/-- status of a query request: 401 turned away, 403 not authorised, 200 executed -/
+def httpQuery (verify : Verify) (n : Node) (c : Carrier) (user pw : String) (q : List Stmt) (db : String) : Node × Nat :=
+  match httpUser verify n c user pw with
+  | (n', Option.none) => (n', 401)
+  | (n', some u) => (n', if authorizeQuery n'.users.length u q db then 200 else 403)
+
+/-- status of a write request to `db` (`dbExists`: the node knows the database): 401 turned
+away, 404 no such database, 403 no user or no write privilege, 204 written -/
+def httpWrite (verify : Verify) (n : Node) (c : Carrier) (user pw : String) (db : String) (dbExists : Bool) : Node × Nat :=
+  match httpUser verify n c user pw with
+  | (n', Option.none) => (n', 401)
+  | (n', some u) =>
+    if !dbExists then (n', 404)
+    else match u with
+      | Option.none => (n', 403)
+      | some u => (n', if authorizeWrite n'.users u.name db then 204 else 403)
+
 end InfluxVerif.Auth
